@@ -353,3 +353,29 @@ def corpus_graphs(acyclic_only=True):
             seen.add(k)
             uniq.append(g)
     return uniq
+
+
+def trace_corpus(rng, tier, conditions, quick_n=150, nmax=7):
+    """Queries from harness/corpus/id_traces.json (one per shape of run of the ID / IDC recursion, built by tools/mktracecorpus.py), each under a fresh
+    permutation of the node identifiers (so names, insertion order and ties in the topological order change from run to run)."""
+    import json, os
+    path = os.path.join(os.path.dirname(__file__), "corpus", "id_traces.json")
+    try:
+        entries = json.load(open(path))
+    except OSError:
+        return []
+    entries = [e for e in entries if bool(e.get("Z")) == conditions and len(e["g"]["nodes"]) <= nmax and (conditions or e["X"])]
+    if tier == "quick" and len(entries) > quick_n:
+        entries = rng.sample(entries, quick_n)
+    out = []
+    for e in entries:
+        ids = sorted(e["g"]["nodes"])
+        perm = list(ids); rng.shuffle(perm)
+        m = dict(zip(ids, perm))
+        g = {"nodes": [m[v] for v in e["g"]["nodes"]], "dir": [[m[a], m[b]] for a, b in e["g"]["dir"]], "bid": [[m[a], m[b]] for a, b in e["g"]["bid"]]}
+        rng.shuffle(g["nodes"]); rng.shuffle(g["dir"]); rng.shuffle(g["bid"])
+        c = {"g": g, "X": [m[v] for v in e["X"]], "Y": [m[v] for v in e["Y"]]}
+        if conditions:
+            c["Z"] = [m[v] for v in e["Z"]]
+        out.append(c)
+    return out
